@@ -168,6 +168,10 @@ def cmpTok (cfg : Cfg) (i : Nat) (th tb : Tok) : Cmp :=
     if vh == vb then .ok 0
     else if isName && valueMatch cfg.bval cfg.hval vb vh then .ok 1
     else mism "value-mismatch" i th tb
+  | .qident vh, .word vb =>
+    -- a quoted identifier where the benign twin has a bare one: both are one identifier token
+    if isName && valueMatch cfg.bval cfg.hval vb vh then .ok 1
+    else mism "shape-mismatch" i th tb
   | _, _ => if th == tb then .ok 0 else mism "shape-mismatch" i th tb
 
 def cmpFlat (cfg : Cfg) (i : Nat) : List Tok → List Tok → Cmp
